@@ -285,10 +285,13 @@ func (g *valueGen) fill(n *Node, v reflect.Value, label string) {
 		}
 	case KBigInt:
 		bi := g.drawBig(label)
-		if bi == nil {
+		switch {
+		case bi == nil:
 			v.Set(reflect.Zero(n.T))
-		} else {
+		case n.T.Kind() == reflect.Ptr:
 			v.Set(reflect.ValueOf(bi))
+		default:
+			v.Set(reflect.ValueOf(*bi)) // a big.Int held by value
 		}
 	case KTime:
 		v.Set(reflect.ValueOf(g.drawTime(label)))
